@@ -975,6 +975,8 @@ class Transaction(object):
                 inputs[n].script = script if not inputs[n].script else inputs[n].script + script
                 inputs[n].keys = script.keys
                 inputs[n].signatures = script.signatures
+                if inputs[n].signatures:
+                    inputs[n].hash_type = inputs[n].signatures[0].hash_type
                 if not script.script_types:
                     inputs[n].script_type = 'unknown'
                 elif script.script_types[0][:13] == 'p2sh_multisig' or script.script_types[0] =='signature_multisig':
@@ -992,7 +994,7 @@ class Transaction(object):
                 elif 'unknown' in script.script_types and not coinbase:
                     inputs[n].script_type = 'unknown'
 
-                inputs[n].update_scripts()
+                inputs[n].update_scripts(hash_type=inputs[n].hash_type)
 
         locktime_bytes = rawtx.read(4)[::-1]
         if len(locktime_bytes) != 4 and strict:
